@@ -118,3 +118,5 @@ func mkCase(prop, class string, s *ref.Struct, v *ref.Val, input []byte, detail 
 	}
 	return c
 }
+
+func init() { harness.RaceBuild = hooks.RaceBuild }
